@@ -1,4 +1,268 @@
-import LecModel
-import LecGen
+/-
+  C14 — Descriptors are unique while live, dead after destroy; instances are isolated.
+
+  State machine `Registry` (LecModel.Registry): live instances, the descriptor counter
+  (a C int that wraps), the reference count of the shared GF tables.
+  `Inv`                  live descriptors positive and pairwise distinct, table reference count =
+                         number of live rs_vand instances;
+  `inv_init/create/destroy`, `inv_history`
+                         the invariant holds after every history of create / destroy calls;
+  `create_fresh`         a successful create returns a positive descriptor that was not live —
+                         whatever the counter value, including INT_MAX (wrap) and negatives;
+  `create_failed`        a failed create leaves the registry unchanged;
+  `destroy_dead`         after destroy the descriptor is unknown until reissued; destroying an
+                         unknown descriptor is refused and changes nothing;
+  `isolation_*`          create / destroy of one instance leaves every other descriptor's
+                         instance (hence the result of every operation through it, all of which
+                         are functions of that instance alone) unchanged;
+  `tables_iff`           the shared tables are present iff some rs_vand instance is live.
+-/
+import LecModel.Registry
 namespace LecProps.C14
+open Lec
+
+def rsCount (l : List (Int × Inst)) : Nat := (l.filter fun p => p.2.beId == 6).length
+
+structure Inv (r : Registry) : Prop where
+  pos : ∀ p ∈ r.live, 0 < p.1
+  nodup : (r.live.map (·.1)).Nodup
+  ref : r.rsRef = rsCount r.live
+
+theorem inv_init : Inv Registry.init := ⟨by simp [Registry.init], by simp [Registry.init], rfl⟩
+
+theorem bumpDesc_pos (x : Int) : 0 < bumpDesc x := by
+  unfold bumpDesc; dsimp only; split <;> omega
+
+/-- whatever `alloc_desc` returns is positive, not live, and becomes the new counter value. -/
+theorem allocDesc_sound (live : List Int) (fuel : Nat) (next d nx : Int)
+    (h : allocDesc live fuel next = some (d, nx)) : 0 < d ∧ d ∉ live ∧ nx = d := by
+  induction fuel generalizing next with
+  | zero => simp [allocDesc] at h
+  | succ f ih =>
+    unfold allocDesc at h
+    dsimp only at h
+    split at h
+    · exact ih _ h
+    · rename_i hc
+      simp only [Option.some.injEq, Prod.mk.injEq] at h
+      obtain ⟨rfl, rfl⟩ := h
+      refine ⟨bumpDesc_pos _, ?_, rfl⟩
+      intro hm; apply hc; simpa using hm
+
+/-- every error code of the shape / availability checks is negative. -/
+theorem create_error_neg (avail : Nat → Bool) (id k m w hd : Int) (ct : Nat) (e : Int)
+    (hc : Lec.create avail id k m w hd ct = .error e) : e < 0 := by
+  unfold Lec.create at hc
+  simp only [EBACKENDNOTSUPP, EINVALIDPARAMS, EBACKENDNOTAVAIL, EBACKENDINITERR] at hc
+  repeat' split at hc
+  all_goals first | (cases hc; done) | (simp only [Except.error.injEq] at hc; omega)
+
+/-- what a call to create does, in terms of the state. -/
+theorem create_cases (r : Registry) (avail : Nat → Bool) (id k m w hd : Int) (ct : Nat) :
+    ((r.create avail id k m w hd ct).1 = r ∧ (r.create avail id k m w hd ct).2 < 0) ∨
+    (∃ inst d nx, Lec.create avail id k m w hd ct = .ok inst ∧ 0 < d ∧ d ∉ r.live.map (·.1) ∧
+      (r.create avail id k m w hd ct) =
+        ({ live := (d, inst) :: r.live, next := nx,
+           rsRef := if inst.beId == 6 then r.rsRef + 1 else r.rsRef }, d)) := by
+  unfold Registry.create
+  cases hc : Lec.create avail id k m w hd ct with
+  | error e =>
+    left
+    exact ⟨rfl, create_error_neg avail id k m w hd ct e hc⟩
+  | ok inst =>
+    cases ha : allocDesc (r.live.map (·.1)) (r.live.length + 2) r.next with
+    | none => left; simp
+    | some p =>
+      obtain ⟨d, nx⟩ := p
+      right
+      obtain ⟨h1, h2, _⟩ := allocDesc_sound _ _ _ _ _ ha
+      exact ⟨inst, d, nx, rfl, h1, h2, rfl⟩
+
+theorem inv_create (r : Registry) (h : Inv r) (avail : Nat → Bool) (id k m w hd : Int) (ct : Nat) :
+    Inv (r.create avail id k m w hd ct).1 := by
+  rcases create_cases r avail id k m w hd ct with ⟨he, _⟩ | ⟨inst, d, nx, _, hpos, hnl, heq⟩
+  · rw [he]; exact h
+  · rw [heq]
+    refine ⟨?_, ?_, ?_⟩
+    · intro p hp
+      simp only [List.mem_cons] at hp
+      rcases hp with rfl | hp
+      · exact hpos
+      · exact h.pos p hp
+    · simp only [List.map_cons, List.nodup_cons]
+      exact ⟨hnl, h.nodup⟩
+    · simp only [rsCount, List.filter_cons]
+      by_cases hb : (inst.beId == 6) = true
+      · simp only [hb, if_true, List.length_cons]; rw [h.ref]; rfl
+      · simp only [hb, Bool.false_eq_true, if_false]; exact h.ref
+
+theorem create_fresh (r : Registry) (avail : Nat → Bool) (id k m w hd : Int) (ct : Nat)
+    (hs : 0 < (r.create avail id k m w hd ct).2) :
+    (r.create avail id k m w hd ct).2 ∉ r.live.map (·.1) ∧
+    (r.create avail id k m w hd ct).1.lookup (r.create avail id k m w hd ct).2 ≠ none := by
+  rcases create_cases r avail id k m w hd ct with ⟨_, hneg⟩ | ⟨inst, d, nx, _, _, hnl, heq⟩
+  · omega
+  · rw [heq]
+    refine ⟨hnl, ?_⟩
+    simp [Registry.lookup]
+
+theorem create_failed (r : Registry) (avail : Nat → Bool) (id k m w hd : Int) (ct : Nat)
+    (hf : (r.create avail id k m w hd ct).2 ≤ 0) : (r.create avail id k m w hd ct).1 = r := by
+  rcases create_cases r avail id k m w hd ct with ⟨he, _⟩ | ⟨inst, d, nx, _, hpos, _, heq⟩
+  · exact he
+  · rw [heq] at hf; simp only at hf; omega
+
+theorem lookup_isSome_iff (r : Registry) (d : Int) : (r.lookup d).isSome ↔ d ∈ r.live.map (·.1) := by
+  unfold Registry.lookup
+  rw [Option.isSome_map, List.find?_isSome]
+  constructor
+  · rintro ⟨p, hp, he⟩; exact List.mem_map.mpr ⟨p, hp, by simpa using he⟩
+  · intro h; obtain ⟨p, hp, he⟩ := List.mem_map.mp h; exact ⟨p, hp, by simpa using he⟩
+
+theorem rsCount_remove (l : List (Int × Inst)) (d : Int) (inst : Inst)
+    (hn : (l.map (·.1)).Nodup) (hf : l.find? (·.1 == d) = some (d, inst)) :
+    rsCount l = rsCount (l.filter (·.1 != d)) + (if inst.beId == 6 then 1 else 0) := by
+  induction l with
+  | nil => simp at hf
+  | cons p ps ih =>
+    simp only [List.map_cons, List.nodup_cons] at hn
+    by_cases hp : (p.1 == d) = true
+    · have hpd : p.1 = d := by simpa using hp
+      simp only [List.find?_cons, hp, Option.some.injEq] at hf
+      have hnotin : ∀ q ∈ ps, (q.1 != d) = true := by
+        intro q hq
+        have : q.1 ≠ p.1 := fun he => hn.1 (List.mem_map.mpr ⟨q, hq, he⟩)
+        simp [← hpd, this]
+      have hfil : (p :: ps).filter (·.1 != d) = ps := by
+        simp only [List.filter_cons, bne, hp, Bool.not_true, Bool.false_eq_true, if_false]
+        exact List.filter_eq_self.mpr hnotin
+      rw [hfil, hf]
+      simp only [rsCount, List.filter_cons]
+      split <;> simp
+    · have hp' : (p.1 == d) = false := by simpa using hp
+      simp only [List.find?_cons, hp'] at hf
+      have := ih hn.2 hf
+      have hne : (p.1 != d) = true := by simp [bne, hp']
+      simp only [rsCount, List.filter_cons, hne, if_true] at this ⊢
+      by_cases hb : (p.2.beId == 6) = true
+      · simp only [hb, if_true, List.length_cons]; omega
+      · simp only [hb, Bool.false_eq_true, if_false]; exact this
+
+theorem find_fst (l : List (Int × Inst)) (d : Int) (p : Int × Inst) (h : l.find? (·.1 == d) = some p) :
+    p.1 = d := by
+  have := List.find?_some h
+  simpa using this
+
+theorem inv_destroy (r : Registry) (h : Inv r) (d : Int) : Inv (r.destroy d).1 := by
+  unfold Registry.destroy Registry.lookup
+  cases hf : r.live.find? (·.1 == d) with
+  | none => simpa using h
+  | some p =>
+    have hp1 := find_fst _ _ _ hf
+    obtain ⟨pd, inst⟩ := p
+    simp only at hp1; subst hp1
+    simp only [Option.map_some]
+    refine ⟨?_, ?_, ?_⟩
+    · intro q hq; exact h.pos q (List.mem_filter.mp hq).1
+    · exact (List.Sublist.map _ List.filter_sublist).nodup h.nodup
+    · have hc := rsCount_remove r.live pd inst h.nodup hf
+      simp only
+      rw [h.ref, hc]
+      split <;> simp
+
+/-- all histories. -/
+inductive Op
+  | create (avail : Nat → Bool) (id k m w hd : Int) (ct : Nat)
+  | destroy (d : Int)
+
+def stepOp (r : Registry) : Op → Registry
+  | .create a id k m w hd ct => (r.create a id k m w hd ct).1
+  | .destroy d => (r.destroy d).1
+
+theorem inv_history (ops : List Op) : Inv (ops.foldl stepOp Registry.init) := by
+  suffices ∀ r, Inv r → Inv (ops.foldl stepOp r) from this _ inv_init
+  induction ops with
+  | nil => intro r h; exact h
+  | cons o os ih =>
+    intro r h
+    apply ih
+    cases o with
+    | create a id k m w hd ct => exact inv_create r h a id k m w hd ct
+    | destroy d => exact inv_destroy r h d
+
+/-- destroy makes the descriptor unknown; an unknown descriptor is refused without effect. -/
+theorem destroy_dead (r : Registry) (d : Int) :
+    (r.destroy d).1.lookup d = none ∧
+    (r.lookup d = none → r.destroy d = (r, -EBACKENDNOTAVAIL)) := by
+  constructor
+  · unfold Registry.destroy
+    cases hl : r.lookup d with
+    | none => simpa using hl
+    | some inst =>
+      simp only [Registry.lookup, Option.map_eq_none_iff, List.find?_eq_none]
+      intro p hp
+      have := (List.mem_filter.mp hp).2
+      simpa [bne] using this
+  · intro hl; simp [Registry.destroy, hl]
+
+theorem isolation_destroy (r : Registry) (d d' : Int) (hne : d' ≠ d) :
+    (r.destroy d).1.lookup d' = r.lookup d' := by
+  unfold Registry.destroy
+  cases hl : r.lookup d with
+  | none => rfl
+  | some inst =>
+    simp only [Registry.lookup]
+    congr 1
+    induction r.live with
+    | nil => rfl
+    | cons p ps ih =>
+      by_cases hp : p.1 = d
+      · have h1 : (p.1 != d) = false := by simp [hp]
+        have h2 : (p.1 == d') = false := by simp [hp, Ne.symm hne]
+        simp only [List.filter_cons, h1, Bool.false_eq_true, if_false, List.find?_cons, h2]
+        exact ih
+      · have h1 : (p.1 != d) = true := by simp [hp]
+        simp only [List.filter_cons, h1, if_true, List.find?_cons]
+        split
+        · rfl
+        · exact ih
+
+theorem isolation_create (r : Registry) (avail : Nat → Bool) (id k m w hd : Int) (ct : Nat) (d' : Int)
+    (hl : d' ∈ r.live.map (·.1)) :
+    (r.create avail id k m w hd ct).1.lookup d' = r.lookup d' := by
+  rcases create_cases r avail id k m w hd ct with ⟨he, _⟩ | ⟨inst, d, nx, _, _, hnl, heq⟩
+  · rw [he]
+  · rw [heq]
+    have hne : (d == d') = false := by
+      have : d ≠ d' := fun he => hnl (he ▸ hl)
+      simp [this]
+    simp [Registry.lookup, hne]
+
+theorem tables_iff (r : Registry) (h : Inv r) :
+    r.tablesPresent = true ↔ ∃ p ∈ r.live, p.2.beId = 6 := by
+  unfold Registry.tablesPresent
+  rw [h.ref, rsCount]
+  simp only [gt_iff_lt, decide_eq_true_eq, List.length_pos_iff]
+  constructor
+  · intro hne
+    obtain ⟨p, hp⟩ := List.exists_mem_of_ne_nil _ hne
+    have := List.mem_filter.mp hp
+    exact ⟨p, this.1, by simpa using this.2⟩
+  · rintro ⟨p, hp, hb⟩ hnil
+    have : p ∈ r.live.filter fun p => p.2.beId == 6 := List.mem_filter.mpr ⟨hp, by simp [hb]⟩
+    rw [hnil] at this; cases this
+
+/-- non-vacuity: the counter at INT_MAX wraps to 1, skipping a live descriptor 1. -/
+example :
+    let i : Inst := ⟨6, 0x010000, 2, 1, 16, 1⟩
+    let r : Registry := { live := [(1, i)], next := intMax, rsRef := 1 }
+    (r.create (fun _ => true) 6 2 1 0 1 1).2 = 2 := by decide
+
+#print axioms inv_history
+#print axioms create_fresh
+#print axioms create_failed
+#print axioms destroy_dead
+#print axioms isolation_destroy
+#print axioms isolation_create
+#print axioms tables_iff
 end LecProps.C14
